@@ -31,22 +31,43 @@ def c04a(ctx, tu):
 
 
 def c04b(ctx, tu):
-    """both end-of-life emitters reach report_missed only through the true edge of is_unfulfilled()"""
+    """both end-of-life emitters report the shortfall exactly when (not reported, linked, not satisfied):
+    the emitter's CFG is interpreted on all 8 valuations of the atoms and the call of report_missed is
+    observed - insensitive to whether the guard is the helper is_unfulfilled() or spelled out inline."""
+    from engine.table import Interp
     for name in (A["dtor_call_matcher"], A["mock_destroyed"]):
         for fn in tu.need(name, 3):
-            rm = cfg.find_events(fn, lambda e: e["e"] == "call" and qe(e) == A["report_missed"])
-            guards = [(bid, cond_shape(cfg.cond_of(fn, bid))) for bid in fn.blocks
-                      if cfg.cond_of(fn, bid) is not None]
-            guards = [(bid, pol) for bid, (t, pol) in guards if lib.tree_name(t) == A["is_unfulfilled"]]
-            ok = len(rm) == 1 and len(guards) == 1
-            if ok:
-                bid, pol = guards[0]
-                ok = cfg.edge_dominates(fn, (bid, 0 if pol else 1), rm[0][0])
-                # and the guard itself is evaluated on every path (both lifetime ends evaluate it)
-                ok = ok and cfg.block_dominates(fn, bid, fn.exit)
-            ctx.ob("C04.b", name, ok, pattern=fn.pat, unit=tu.name, inst=fn.q,
-                   detail="" if ok else "%s must evaluate is_unfulfilled() on every path and report exactly on "
-                   "its true edge" % name)
+            try:
+                bad = None
+                for v in product({"reported": [False, True], "linked": [False, True], "satisfied": [False, True]}):
+                    seen = []
+                    def rm(t, it, seen=seen):
+                        seen.append("report_missed")
+                        return None
+                    want = (not v["reported"]) and v["linked"] and (not v["satisfied"])
+                    calls = {A["report_missed"]: rm, A["is_unfulfilled"]: want,
+                             "trompeloeil::list_elem::is_linked": v["linked"], A["is_satisfied"]: v["satisfied"],
+                             "std::unique_ptr::operator->": ("ptr", ("obj", "handler"))}
+                    base = Oracle(calls=calls, members={"trompeloeil::call_matcher::reported": v["reported"],
+                                                        "trompeloeil::call_matcher::sequences": ("obj", "sequences")})
+                    def oracle(kind, t, it, base=base):
+                        try:
+                            return base(kind, t, it)
+                        except Unknown:
+                            if kind == "call":
+                                return ("opaque", lib.tree_name(t) or "ctor")   # lock, unlink, retire ...: no influence
+                            raise
+                    it = Interp(fn, oracle)
+                    it.run()
+                    if (len(seen) == 1) != want or len(seen) > 1:
+                        bad = "reported=%s linked=%s satisfied=%s: the shortfall is %sreported%s" % (
+                            v["reported"], v["linked"], v["satisfied"], "" if seen else "not ",
+                            " %d times" % len(seen) if len(seen) > 1 else "")
+                ctx.ob("C04.b", name, bad is None, pattern=fn.pat, unit=tu.name, inst=fn.q,
+                       detail="" if bad is None else "%s must report a missed expectation exactly when it has not been "
+                       "reported, is still linked and is not satisfied: %s" % (name, bad))
+            except Unknown as u:
+                ctx.ob("C04.b", name, None, pattern=fn.pat, unit=tu.name, inst=fn.q, detail="cannot interpret: %s" % u)
     # ~call_matcher unlinks on every path (C01.e)
     for fn in tu.need(A["dtor_call_matcher"], 3):
         ul = cfg.find_events(fn, lambda e: e["e"] == "call" and qe(e) == A["unlink"] and e.get("recv") == ["this"])
